@@ -1081,7 +1081,9 @@ func checkC09(P *Prog, r *Result) {
 				r.info("%s: slice(s) %s accumulated in visit order and sorted before any other use (collect-then-sort idiom)", lname, strings.Join(sortedIdiom, ","))
 			}
 			// phis in other body blocks that merge a value from a previous iteration do not exist without a header phi
-			if len(carried) > 0 {
+			if len(carried) > 0 && rangeOverAtMostOneEntry(l) {
+				r.ok("C09/range-independent", lname+":carried-value", pos, "the loop runs under `len(m) == 1` (or <= 1): one entry has no order")
+			} else if len(carried) > 0 {
 				r.bad("C09/range-independent", lname+":carried-value", pos, "a value is carried from one iteration of a map range to the next; the result depends on visit order: "+strings.Join(carried, ", "))
 			} else {
 				r.ok("C09/range-independent", lname+":carried-value", pos, "no loop-carried SSA value besides the iterator")
@@ -1905,4 +1907,33 @@ func calleeMayReadField(fn *ssa.Function, idx int, f *types.Var, depth int) bool
 		}
 	})
 	return reads
+}
+
+// rangeOverAtMostOneEntry: the range over map m is only reached knowing len(m) == 1, len(m) <= 1 or len(m) < 2
+// (`switch len(params) { case 1: for k, v := range params {...} }`).
+func rangeOverAtMostOneEntry(l rangeLoop) bool {
+	m := cv(l.rng.X)
+	for _, gd := range guardsOf(l.rng.Block()) {
+		bo, ok := cv(gd.If.Cond).(*ssa.BinOp)
+		if !ok {
+			continue
+		}
+		c, isCall := bo.X.(*ssa.Call)
+		if !isCall || callOf(c).builtin != "len" || cv(c.Call.Args[0]) != m {
+			continue
+		}
+		k, isK := constInt(bo.Y)
+		if !isK {
+			continue
+		}
+		op := bo.Op
+		if !gd.True {
+			op = map[token.Token]token.Token{token.EQL: token.NEQ, token.NEQ: token.EQL, token.LSS: token.GEQ, token.LEQ: token.GTR, token.GTR: token.LEQ, token.GEQ: token.LSS}[op]
+		}
+		switch {
+		case op == token.EQL && k <= 1, op == token.LEQ && k <= 1, op == token.LSS && k <= 2:
+			return true
+		}
+	}
+	return false
 }
